@@ -58,8 +58,13 @@ def _names_stored(node: ast.AST) -> Set[str]:
 def _mutated_names(node: ast.AST) -> Set[str]:
     out: Set[str] = set()
     for n in ast.walk(node):
-        if isinstance(n, ast.Call) and isinstance(n.func, ast.Attribute) and n.func.attr in MUTATORS and isinstance(n.func.value, ast.Name):
-            out.add(n.func.value.id)
+        if isinstance(n, ast.Call) and isinstance(n.func, ast.Attribute) and n.func.attr in MUTATORS:
+            # `groups[k].append(x)` changes what `groups` holds just as `groups.update(...)` does
+            r = n.func.value
+            while isinstance(r, ast.Subscript):
+                r = r.value
+            if isinstance(r, ast.Name):
+                out.add(r.id)
         if isinstance(n, (ast.Subscript, ast.Attribute)) and isinstance(n.ctx, (ast.Store, ast.Del)):
             r = n
             while isinstance(r, (ast.Subscript, ast.Attribute)):
